@@ -260,31 +260,49 @@ def implied_status_bits(e):
     return set()
 
 
+def loop_nodes(func):
+    """id(node) -> enclosing while-loop, for every node in the test or the body of a while-loop of the function"""
+    ids = {}
+    for n in iter_own_nodes(func.node):
+        if isinstance(n, ast.While):
+            for part in [n.test] + list(n.body):
+                for x in ast.walk(part):
+                    ids.setdefault(id(x), n)
+    return ids
+
+
 def wait_loops(radio, agg, f, outs, rule="R02.1"):
-    """polling loops: exit mask == TX_DS|MAX_RT of the freshest STATUS, body refreshes STATUS"""
-    wts = {}
+    """polling loops: the decision that ends the wait tests exactly TX_DS|MAX_RT (0x30) of the freshest STATUS.  The decision is found by
+    what it tests - a STATUS-provenance value with bits 4/5 in place, evaluated inside a while-loop (its test, or an `if .. break` in its
+    body), in send()/resend() or in a helper - not by the loop's shape or by the name of the variable holding the byte"""
+    lns = {}
     n = 0
     for out in outs:
         for ev in out.trace:
             if ev.kind != "cond" or ev.func is None:
                 continue
-            # the loop may live in send()/resend() itself or in a helper they call (inlined by the interpreter)
-            if ev.func.qualname not in wts:
-                wts[ev.func.qualname] = while_tests(ev.func)
-            wt = wts[ev.func.qualname]
-            if id(ev.node) not in wt:
+            if ev.func.qualname not in lns:
+                lns[ev.func.qualname] = loop_nodes(ev.func)
+            loop = lns[ev.func.qualname].get(id(ev.node))
+            if loop is None:
                 continue
-            loop = wt[id(ev.node)]
-            bits = status_bits_of(ev.data[1])
-            if bits is None or not any(v for v in bits.values()):
-                continue  # not the status-polling loop (force-retry loop)
-            if not any(isinstance(x, ast.Attribute) and x.attr == radio.model.status[1] for x in ast.walk(ev.node)):
-                continue  # tests a local copy (the retry loop's `result`), not the STATUS cache
+            val = ev.data[1]
+            if isinstance(val, tuple) and len(val) == 2 and isinstance(ev.node, ast.Compare) and isinstance(ev.node.ops[0], (ast.Eq, ast.NotEq)):
+                # `status & 0x30 == 0` / `!= 0`: the same decision spelled as a comparison with zero
+                for x, y in ((val[0], val[1]), (val[1], val[0])):
+                    if const_of(norm(y)) == 0 and not isinstance(norm(x), Const):
+                        val = x
+            bits = status_bits_of(val) if not isinstance(val, tuple) else None
+            if not bits:
+                continue
+            in_place = {i for i, v in bits.items() if v is not None and v[1] == i}
+            if not (in_place & {4, 5}):
+                continue  # not the wait decision (e.g. the force-retry loop's `result`, which is TX_DS moved to bit 0)
             n += 1
             cur = last_txn_before(out, ev.seq)
             ok = set(bits) == {4, 5} and all(v is not None and v[0] == cur and v[1] == i and not v[2] for i, v in bits.items())
             agg.add(rule, f, "wait loop tests exactly TX_DS|MAX_RT (0x30) of the latest STATUS", ok,
-                    "loop test `%s` sees %r (latest transaction %d)" % (ast.unparse(loop.test), bits, cur), ev.node)
+                    "wait decision `%s` sees %r (latest transaction %d)" % (ast.unparse(ev.node)[:60], bits, cur), ev.node)
     return n
 
 
@@ -516,7 +534,37 @@ def send_list(radio, agg, rule="R01.7"):
     return n
 
 
+def resend_flush(radio, agg, lite=False):
+    """R02.6: resend(send_only=False) empties the RX FIFO before re-transmitting iff it holds something - decided by RX_P_NO (bits 3:1)
+    of STATUS, not by the RX_DR flag (a later write() may have cleared the flag while the payload still waits) - for every RX_P_NO x RX_DR;
+    with send_only the RX FIFO is never touched"""
+    f = radio.prog.method(radio.cls, "resend")
+    n = 0
+    for so in (False, True):
+        for rxp in range(8):
+            for rxdr in (0, 1):
+                n += 1
+                s = 0x20 | (rxdr << 6) | (rxp << 1)
+                st = radio.fresh({contract.FEATURE: 0x05, contract.DYNPD: 0x3F})
+                st.extra["status_pin"] = s
+                outs = radio.run(f, [so], st, limits=Limits(max_paths=4000, loop_unroll=2))
+                for out in outs:
+                    if out.kind != "return":
+                        continue
+                    ces = [e for e in out.trace if e.kind == "ce"]
+                    if not ces:
+                        continue        # empty TX FIFO: nothing to re-send (judged by resend_rules)
+                    hi = [e for e in ces if const_of(norm(e.data)) in (1, True)]
+                    frx = [e for e in out.trace if e.kind == "cmd" and const_of(norm(e.data[0])) == regmap.FLUSH_RX and (not hi or e.seq < hi[0].seq)]
+                    want = (not so) and rxp < 6
+                    agg.add("R02.6", f, "before re-transmitting, FLUSH_RX iff not send_only and the RX FIFO holds a payload (RX_P_NO < 6), whatever RX_DR says", bool(frx) == want,
+                            "resend(send_only=%r) with STATUS=0x%02X (RX_P_NO=%d, RX_DR=%d): %d FLUSH_RX, expected %d - %s" % (
+                                so, s, rxp, rxdr, len(frx), int(want), "a stale ACK payload would be returned as this transmission's" if want else "a waiting payload is destroyed"))
+    return n
+
+
 def resend_rules(radio, agg, lite=False):
+    resend_flush(radio, agg, lite)
     f = radio.prog.method(radio.cls, "resend")
     n = 0
     for so in (False, True):
